@@ -39,7 +39,7 @@ def net_water():
     pp.create_ext_grid(net, j[0], 5, 350, type="pt")
     pp.create_pipe_from_parameters(net, j[0], j[1], 0.3, 60, u_w_per_m2k=8, sections=3)          # outer diameter NaN
     pp.create_pipe_from_parameters(net, j[1], j[2], 0.2, 50, u_w_per_m2k=8, outer_diameter_mm=70)
-    pp.create_pipe(net, j[1], j[3], "80_GGG", 0.2, text_k=285.0)
+    pp.create_pipe(net, j[1], j[3], "80_GGG", 0.2, text_k=285.0, u_w_per_m2k=5.0)   # the library type carries no u value
     pp.create_pipe_from_parameters(net, j[2], j[3], 0.1, 40, u_w_per_m2k=8, in_service=False)
     pp.create_pipe_from_parameters(net, j[3], j[4], 0.1, 40, u_w_per_m2k=8)
     pp.create_valve(net, j[3], 4, "pi", 40)
@@ -48,6 +48,10 @@ def net_water():
     pp.create_sink(net, j[4], 0.3, scaling=0.5)
     pp.create_source(net, j[3], 0.05)
     pp.create_sink(net, j[1], 0.2, scaling=1.3, in_service=False)
+    # a pressure controller feeding one more junction (its matrix entries share positions with other elements)
+    j5 = pp.create_junction(net, 5, 320)
+    pp.create_pressure_control(net, j[4], j5, j5, 4.2)
+    pp.create_sink(net, j5, 0.1)
     return net
 
 
@@ -85,6 +89,10 @@ PF = {
     "seq": {"mode": "sequential", "use_numba": False},
     "bidir": {"mode": "bidirectional", "use_numba": False, "iter": 40},
     "fail": {"mode": "hydraulics", "use_numba": False, "iter": 1, "tol_p": 1e-14, "tol_m": 1e-14},
+    # refused while the internal tables are set up (a transient calculation needs simulation_time_step)
+    "fail_early": {"mode": "hydraulics", "use_numba": False, "transient": True},
+    # internal matrix structure kept on the net object and re-used by the next call
+    "hyd_reuse": {"mode": "hydraulics", "use_numba": False, "only_update_hydraulic_matrix": True, "reuse_internal_data": True},
     "heat_stored": "special",
     "hyd_save": "special",       # hydraulics, the solution vector is kept for a later heat_saved
     "heat_saved": "special",     # thermal-only run from the solution vector kept by the last hyd_save of the history
@@ -179,6 +187,8 @@ def results(net):
     for k in net.keys():
         if k.startswith("res_") and isinstance(net[k], pd.DataFrame):
             out[k] = (list(net[k].columns), net[k].index.tolist(), net[k].values.astype(float).copy())
+    # the verdict flag belongs to the results
+    out["res__converged_flag"] = (["converged"], [0], np.array([[float(bool(net.get("converged", False)))]]))
     return out
 
 
@@ -262,7 +272,8 @@ def cases(tier):
     for netname in NETS:
         pfs = [o for o in PF if applicable(netname, o)]
         pres = [o for o in PRE if o is None or applicable(netname, o)]
-        steps = [(a, b) for a in pres for b in pfs]
+        # re-using the internal matrix structure right after a structural edit is a caller's error, not a history effect
+        steps = [(a, b) for a in pres for b in pfs if not (b == "hyd_reuse" and a in ("edit_ins", "restore"))]
         for first in pfs:
             out.append({"net": netname, "ops": [first]})
             for a, b in steps:
@@ -331,6 +342,12 @@ def run_case(case):
         if d:
             vs.append(viol("history_changes_results", "%s: differs from the fresh net in %s" % (where, d), op=last,
                            first=case["ops"][0], **tag))
+    elif st1.startswith("raised"):
+        # a refused / failed call leaves the same (empty) results and verdict flag behind as on a fresh net
+        d = results_equal(res1, results(fresh), exact=False)
+        if d:
+            vs.append(viol("failed_call_leaves_state", "%s: after the failing call the net differs from a fresh net with the same "
+                           "failing call in %s" % (where, d), op=last, **tag))
     # (iv) heat from the stored hydraulic solution equals sequential
     if last in ("heat_stored", "heat_saved") and st1 == "ok":
         seqnet = NETS[netname]()
@@ -345,5 +362,18 @@ def run_case(case):
                                for k, v in keep(results(seqnet)).items()}, exact=False, rtol=1e-6)
             if d:
                 vs.append(viol("heat_differs_from_sequential", "%s: %s" % (where, d), **tag))
+            # every other cell is either not computed (NaN) or the value of the sequential run - never another number
+            rs = results(seqnet)
+            for k, (cols, idx, vals) in res1.items():
+                if k not in rs or rs[k][0] != cols or rs[k][2].shape != vals.shape:
+                    continue
+                ref = rs[k][2]
+                bad = ~np.isnan(vals) & ~(np.abs(vals - ref) <= 1e-6 * np.maximum(1.0, np.abs(ref)))
+                if bad.any():
+                    r_, c_ = np.argwhere(bad)[0]
+                    vs.append(viol("heat_reports_other_number", "%s: %s row %s column %s: heat-only run reports %r, sequential run %r" % (
+                        where, k, idx[r_], cols[c_], vals[r_, c_], ref[r_, c_]), table=k, col=cols[c_], **tag))
+                    break
     return {"status": "ok", "violations": vs, "states": states, "transitions": transitions[0], "traces": 1,
-            "nontrivial": len(case["ops"]) > 1, "sig": core.jhash([netname, case["ops"], statuses])}
+            "nontrivial": len(case["ops"]) > 1, "sig": core.jhash([netname, case["ops"], statuses]),
+            "info": {"last_call_%s_%s_%s" % (netname, last, st1.split(":")[0]): 1}}
